@@ -111,6 +111,7 @@ func c10(r *core.Run) {
 	r.Explanation = "Static rules over the 11 filetree handlers discovered from the Msg service: every write/delete of a Files record in the eight owner-only handlers lies behind the owner predicate applied to the loaded record and the signer on all committing paths; PostFile's write lies behind the edit-access predicate applied to the parent record loaded by (HashParent, Account) and the signer; only the field named by the message is assigned between load and store; deletes use the loaded key; root provisioning writes a record owned by the signer only. Predicates are recognised by their shape (what they compare), not by name."
 	r.Assumptions = []string{T1, T2, T4, "SHA-256 collision resistance"}
 	r.NotDecided = []string{"hash collision resistance", "separator-crafting in key components (stored Address/Owner are hex digests)"}
+	r.Rule("C10/R6", "an entry created behind 'no entry at that key' is written under the key whose absence was tested (same owner-address term on both sides): otherwise another owner's existing entry can be overwritten")
 	r.Rule("C10/R1", "owner gate: every effect of DeleteFile/ChangeOwner/Add,Remove,ResetViewers/Add,Remove,ResetEditors is, on all committing paths, behind ownerPredicate(loaded record, signer)=true")
 	r.Rule("C10/R2", "editor gate: PostFile's write is behind editAccessPredicate(parent record, signer)=true; parent loaded by key ⊵ {msg.HashParent, msg.Account}; new Owner ⊵ msg.Account and ⋫ msg.Creator")
 	r.Rule("C10/R3", "only the named entry and field: the stored record is the loaded one with only the handler's field assigned; deletes use the key the record was loaded by")
@@ -121,6 +122,13 @@ func c10(r *core.Run) {
 		r.Undecided("C10/R1", "handlers", "", err.Error())
 		return
 	}
+	var ftHs []*core.Handler
+	for _, h := range hs {
+		if h.Module == "filetree" {
+			ftHs = append(ftHs, h)
+		}
+	}
+	r.Floor("C10/R6", absentCheckKeyAgreement(r, "C10/R6", ftHs), 1, "create-if-absent pairs in filetree handlers")
 	ownerOnly := map[string]string{ // handler -> field it may assign ("" = none, "-" delete only)
 		"filetree.MsgDeleteFile":    "",
 		"filetree.MsgChangeOwner":   "Owner",
